@@ -292,7 +292,7 @@ def run(ctx, res):
     res.floor("C07.R8", 2)
     coarse = _coarse_clock_ids(prog)
     for g in (reload_, now_):
-        stamps = [n for n, lhs in field_stores(g) if lhs["field"] == "fs_last" and "shared_fs" in canon(lhs)]
+        stamps = [n for n, lhs in field_stores(g) if lhs["field"] == "fs_last" and (lhs.get("rec") == "shared_fileset" or "shared_fs" in canon(lhs))]
         gts = g.calls("my_gettime")
         if not stamps:
             continue
